@@ -38,6 +38,9 @@ const (
 	KUStructs = "union_structs"
 	KDateTime = "datetime"
 	KAny      = "any"
+	// KIntersection: allOf of references to struct definitions (Refs); only
+	// JSON Schema and OpenAPI inputs, only generated for C02
+	KIntersection = "intersection"
 )
 
 // T is a model type.
@@ -217,10 +220,23 @@ func (m *Model) HasNestedCollections() bool {
 	return found
 }
 
+// HasBytes tells whether the model holds a bytes field.
+func (m *Model) HasBytes() bool {
+	found := false
+	m.Walk(func(_ string, _ string, t *T) {
+		if t.Kind == KBytes {
+			found = true
+		}
+	})
+	return found
+}
+
 // Supports tells whether format f can express the (single, non recursive)
 // features of t as the renderers write them.
 func Supports(f Format, t T) bool {
 	switch t.Kind {
+	case KIntersection:
+		return f != CUE
 	case KBytes:
 		return f == OpenAPI
 	case KInt:
